@@ -325,7 +325,11 @@ func vfC19Outages(run *vfkit.Run, idx int) {
 	cs := map[string]interface{}{"mode": "stream-manager-outages", "failures": []int{6, 3}, "index": idx}
 	run.Case(cs)
 	var failures, sessions int32 // failures of the current outage; sessions established so far
-	plan := []int32{0, 6, 3}     // failures to inflict before the k-th session
+	// for the sampler: failures since the start (never reset) and their number when the current outage began. The
+	// failures behind a sleep seen in a dump are at most total(read after the dump) - base(read before the dump): the
+	// base only ever grows and so does the total, so the estimate can only be too high - which only loosens the bound.
+	var totalFailures, baseFailures int32
+	plan := []int32{0, 6, 3} // failures to inflict before the k-th session
 	cmds := make(chan *vfPeerConn, 8)
 	peer := vfNewPeer(func(pc *vfPeerConn) {
 		hdr, err := pc.Expect("stream")
@@ -337,6 +341,7 @@ func vfC19Outages(run *vfkit.Run, idx int) {
 			// a server that cannot take the session just now: it says so at the bind and ends the stream, so that the
 			// client learns at once - within milliseconds, without any timeout - that this attempt has failed
 			atomic.AddInt32(&failures, 1)
+			atomic.AddInt32(&totalFailures, 1)
 			pc.Send(vfStreamHeader("jabber:client", "down", "localhost") + "<stream:features><mechanisms xmlns='" + vfNSSASL + "'><mechanism>PLAIN</mechanism></mechanisms></stream:features>")
 			if _, err := pc.Expect("auth"); err != nil {
 				return
@@ -364,6 +369,7 @@ func vfC19Outages(run *vfkit.Run, idx int) {
 			return
 		}
 		atomic.StoreInt32(&failures, 0)
+		atomic.StoreInt32(&baseFailures, atomic.LoadInt32(&totalFailures))
 		atomic.AddInt32(&sessions, 1)
 		cmds <- pc
 		for {
@@ -394,6 +400,7 @@ func vfC19Outages(run *vfkit.Run, idx int) {
 				return
 			default:
 			}
+			base := atomic.LoadInt32(&baseFailures) // read before the dump
 			for _, g := range vfGoroutines() {
 				if !strings.Contains(g.Text, needle) {
 					continue
@@ -406,8 +413,8 @@ func vfC19Outages(run *vfkit.Run, idx int) {
 				if err != nil {
 					continue
 				}
-				f := int(atomic.LoadInt32(&failures)) // read after the dump
-				bound := vfRefBackoff(0, 0, 0, f)     // defaults: 20 ms * 2^f, capped at three minutes
+				f := int(atomic.LoadInt32(&totalFailures) - base) // total read after the dump
+				bound := vfRefBackoff(0, 0, 0, f)                 // defaults: 20 ms * 2^f, capped at three minutes
 				atomic.AddInt64(&samples, 1)
 				if ns > bound*int64(time.Millisecond) {
 					mu.Lock()
